@@ -390,3 +390,85 @@ Proof.
   intros ch k es fuel H.
   rewrite !del_loop_filter; [reflexivity| |]; pose proof (count_le_length k es); lia.
 Qed.
+
+(* ---- C17, decoder half: a key the target cannot hold makes the assignment fail --------------- *)
+From OgRek Require Import Reader Decoder.
+
+Definition key_rejected (m k : val) : Prop :=
+  match m with
+  | VMap _ => go_unhashable k = true
+  | VDict _ => hashable k = false
+  | _ => True
+  end.
+
+Lemma try_assign_rejects : forall h m k v, key_rejected m k -> try_assign h m k v = None.
+Proof.
+  intros h m k v R. unfold try_assign. destruct m; try reflexivity; cbn in R.
+  - destruct (heap_get h id) as [[es|es]|]; try reflexivity. rewrite R. reflexivity.
+  - destruct (heap_get h id) as [[es|es]|]; try reflexivity.
+    unfold dict_set, dict_del. rewrite R. reflexivity.
+Qed.
+
+(* keys sit at the even positions of the items k1 v1 k2 v2 ... *)
+Fixpoint keys_of (items : list val) : list val :=
+  match items with
+  | k :: _ :: t => k :: keys_of t
+  | _ => []
+  end.
+
+Lemma assign_pairs_rejects_n : forall n items h m, (length items <= n)%nat ->
+  (exists k, In k (keys_of items) /\ key_rejected m k) -> snd (assign_pairs h m items) = false.
+Proof.
+  induction n as [|n IH]; intros items h m Hl [k [Hin R]].
+  - destruct items; [contradiction|cbn in Hl; lia].
+  - destruct items as [|k0 [|v0 t]]; try contradiction.
+    cbn [assign_pairs]. cbn [keys_of] in Hin.
+    destruct (try_assign h m k0 v0) as [h1|] eqn:T; [|reflexivity].
+    destruct Hin as [E|Hin].
+    + subst k0. rewrite (try_assign_rejects h m k v0 R) in T. discriminate.
+    + apply IH; [cbn in Hl; lia|]. exists k. split; assumption.
+Qed.
+
+Lemma assign_pairs_rejects : forall items h m,
+  (exists k, In k (keys_of items) /\ key_rejected m k) -> snd (assign_pairs h m items) = false.
+Proof. intros items h m. apply (assign_pairs_rejects_n (length items)). lia. Qed.
+
+(* SETITEM: error, not panic, not success; nothing is assigned *)
+Theorem setitem_rejects : forall cfg key insn st v k m t,
+  d_stack st = v :: k :: m :: t -> is_mark k = false -> is_mark v = false ->
+  (exists id, m = VMap id \/ m = VDict id) -> key_rejected m k ->
+  handler cfg OSetitem key insn st = Ret (HErr (set_stack st (m :: t)) EOther).
+Proof.
+  intros cfg key insn st v k m t E Mk Mv [id [-> | ->]] R; cbn [handler]; rewrite E, Mk, Mv; cbn [orb];
+    rewrite (try_assign_rejects _ _ k v R); reflexivity.
+Qed.
+
+(* SETITEMS: error as soon as the rejected key is reached; the Decode call fails *)
+Theorem setitems_rejects : forall cfg key insn st above m t,
+  split_mark (d_stack st) = Some (above, m :: t) -> Nat.odd (length above) = false ->
+  (exists id, m = VMap id \/ m = VDict id) ->
+  (exists k, In k (keys_of (rev above)) /\ key_rejected m k) ->
+  exists h, handler cfg OSetitems key insn st = Ret (HErr (set_heap st h) EOther).
+Proof.
+  intros cfg key insn st above m t S O [id Hm] K. cbn [handler]. rewrite S, O.
+  pose proof (assign_pairs_rejects (rev above) (d_heap st) m K) as A.
+  destruct (assign_pairs (d_heap st) m (rev above)) as [h b] eqn:P. cbn in A. subst b.
+  exists h. destruct Hm as [-> | ->]; reflexivity.
+Qed.
+
+(* DICT: the fresh map / Dict is discarded and the Decode call fails *)
+Theorem dict_rejects : forall cfg key insn st above below,
+  split_mark (d_stack st) = Some (above, below) -> Nat.odd (length above) = false ->
+  (exists k, In k (keys_of (rev above)) /\
+             (if c_pydict cfg then hashable k = false else go_unhashable k = true)) ->
+  handler cfg ODict key insn st = Ret (HErr st EOther).
+Proof.
+  intros cfg key insn st above below S O [k [Hin R]]. cbn [handler]. rewrite S, O.
+  unfold new_dict_obj. cbn [fresh]. destruct (c_pydict cfg) eqn:P.
+  - match goal with |- context[assign_pairs ?h ?m ?i] =>
+      pose proof (assign_pairs_rejects i h m (ex_intro _ k (conj Hin R))) as A;
+      destruct (assign_pairs h m i) as [h' b] end. cbn in A. subst b. reflexivity.
+  - match goal with |- context[assign_pairs ?h ?m ?i] =>
+      pose proof (assign_pairs_rejects i h m (ex_intro _ k (conj Hin R))) as A;
+      destruct (assign_pairs h m i) as [h' b] end. cbn in A. subst b. reflexivity.
+Qed.
